@@ -657,6 +657,10 @@ impl World {
 	pub fn restart_node(
 		&mut self, n: usize, chosen: &BTreeMap<ChannelId, Snapshot>, manager: Vec<u8>, lost_delivery: Option<(usize, Wire)>,
 	) -> Result<(), String> {
+		for rec in self.nodes[n].persist.take_log() {
+			self.obs.push(Obs::Persist { node: n, rec });
+		}
+		let _ = siglog_take();
 		self.obs.push(Obs::Restarted {
 			node: n,
 			chosen: chosen.iter().map(|(c, s)| (*c, s.monitor_update_id)).collect(),
@@ -674,8 +678,7 @@ impl World {
 				self.obs.push(Obs::Disconnected { a: n, b: o });
 			}
 		}
-		// whatever the dead process had queued or logged is gone
-		let _ = self.nodes[n].persist.take_log();
+		// whatever the dead process had queued is gone; writes that reached the store stay observed
 		let _ = self.nodes[n].bc.take();
 		let blocks = self.chain.blocks.clone();
 		self.nodes[n].restart(chosen, &manager, None, &blocks)?;
